@@ -3,8 +3,8 @@
 From Coq Require Import String List Bool NArith ZArith.
 From OP Require Import Base.Str Base.Check Base.ParserTypes Base.Res Base.Json Base.Sx Base.DTree
                        Gen.GParser Gen.GChecks Gen.GPolicy
-                       Model.Leaf Model.SR Model.Tokenize Model.Print Model.Eval Model.Trace Model.Enforce Model.CheckRules Model.Load
-                       Spec.Grammar Spec.ListRule Spec.Template Spec.LeafSpec.
+                       Model.Leaf Model.SR Model.Tokenize Model.Print Model.Eval Model.Trace Model.Enforce Model.CheckRules Model.Load Model.Pick
+                       Spec.Grammar Spec.ListRule Spec.Template Spec.LeafSpec Spec.Layering.
 Import ListNotations.
 Set Implicit Arguments.
 Local Open Scope Z_scope.
@@ -413,6 +413,32 @@ Definition suite_load (args : list sx) : sx :=
   | _ => bad
   end.
 
+(* documented layering: [conf; fsys; names] -> printed effective check (or none) per name *)
+Definition suite_spec_load (args : list sx) : sx :=
+  match args with
+  | [cf; fs; names] =>
+      match dlconf cf, dfsys fs, dlist dstr names with
+      | Some cf', Some fs', Some ns =>
+          sx_of_list (fun n => sx_of_option (fun c => sx_of_str (print c)) (spec_rule cf' fs' n)) ns
+      | _, _, _ => bad end
+  | _ => bad
+  end.
+
+(* file selection: [is_yaml; nonempty; fallback; found_opt; loc; found_json] -> [model; spec] *)
+Definition suite_pick (args : list sx) : sx :=
+  match args with
+  | [a; b; c; d; A l; f] =>
+      match dbool a, dbool b, dbool c, dbool d, dbool f with
+      | Some a', Some b', Some c', Some d', Some f' =>
+          let i := {| p_opt_is_yaml := a'; p_opt_nonempty := b'; p_fallback := c'; p_found_opt := d';
+                      p_loc := if l =? 0 then LocOptDefault else if l =? 1 then LocSetDefault
+                               else if l =? 2 then LocUser else if l =? 3 then LocSetOverride else LocOther;
+                      p_found_json := f' |} in
+          L [sx_of_bool (picks_json i); sx_of_bool (spec_picks_json i)]
+      | _, _, _, _, _ => bad end
+  | _ => bad
+  end.
+
 Definition wire_main (x : sx) : sx :=
   match x with
   | L (A 1 :: args) => suite_tokenize args
@@ -425,5 +451,7 @@ Definition wire_main (x : sx) : sx :=
   | L (A 8 :: args) => suite_spec_leaf args
   | L (A 9 :: args) => suite_check_rules args
   | L (A 10 :: args) => suite_load args
+  | L (A 11 :: args) => suite_spec_load args
+  | L (A 12 :: args) => suite_pick args
   | _ => sx_err 1
   end.
